@@ -19,7 +19,7 @@ LEVEL = {
  "C10": ("theorem: the AF bitmap is bitmap_of (codes received >= threshold times in 0A since reset); observer obs_C10 on sweeps over all values of block C ; code level: rdsparser_buffer_add_af and the AF bitmap functions = the model's (C10_code_*)", "8/C10"),
  "C11": ("theorem on the per-step ECC/country update + kernel-checked facts on the regenerated ECC graph (shape, reference table); observer obs_C11 on the implementation ; code level: rdsparser_ecc_lookup with the tables in the source = the measured graph, rdsparser_group1_parse = the model's (C11_code_*)", "8/C11"),
  "C12": ("theorems: ct_init of the model satisfies the single calendar equation for every 17-bit MJD (kernel sweep over all 131074 day values) and every hour/minute/offset; rdsparser_ct_init, its getters and the 4A field extractors are translated from the C sources on every run and proved equal to the model's on everything a 4A group can carry; observer obs_C12 on the implementation's reports ; code level: rdsparser_group4_parse (local struct, callback through the getters) = the model's group4_parse (C12_code_group4)", "8/C12, 17.7"),
- "C13": ("theorem: clear s = fresh state with the settings of s (state equality, hence same future); on the implementation twin runs cleared-vs-fresh with identical continuations probing every piece of hidden state", "8/C13"),
+ "C13": ("theorem: clear s = fresh state with the settings of s (state equality, hence same future); on the implementation twin runs cleared-vs-fresh with identical continuations probing every piece of hidden state ; code level: rdsparser_clear translated from the sources = the model's clear (C13_code_clear)", "8/C13"),
  "C14": ("theorem: acceptance iff hex_ok, effect equal to parse of decode, rejection inert; observer obs_C14 on the malformed stream and twin runs string-vs-binary (pair re-checked with extracted decode)", "8/C14"),
  "C15": ("theorems: the core state evolves independently of callbacks/user data; callbacks carry the registered id and current user data; registration / user-data calls made from inside callbacks are modelled (step_reent: conservative extension, decoding unaffected); twin runs with different observer sets and a re-entrant twin replay on the implementation", "8/C15, 17.6"),
  "C16": ("theorem: invariant tsnap_wf of all four texts over every reachable model state; observer obs_C16 on every implementation snapshot (terminator, level domain, availability, length) incl. garbage-prefilled caller storage", "8/C16"),
@@ -45,7 +45,7 @@ def main():
             "engine": "coq-model+correspondence",
             "level_claimed": {"category": "proof", "text": text, "design_ref": "DESIGN.md section " + ref},
             "level_note": "Coq 8.16.1 kernel (vm_compute used, native_compute not), no axioms; trusted: gen_dump.c + gcc (Gen.v = graph of compiled tables), tools/cleaf.py and tools/cmid.py + clang front end (GenLeaf.v, GenMid.v; the memory model of cmid.py: members of one struct never alias, string accessors recognised by name, callbacks as events), hand-written model tied by running extracted model (ExtrOcamlBasic only) and implementation on the same scripts, OCaml driver, C harness, generators; the theorem is about the model and reaches the code only through that tie",
-            "technique": "machine-checked proof in Coq over a Gallina model of the API (every boolean observer the check evaluates is itself a theorem of the model for every script); tie = tables regenerated from the compiled library (Gen.v) + 30 leaf functions translated from clang's typed AST on every run and proved equal to the model's (GenLeaf.v) + 32 middle-layer functions up to rdsparser_parser_process translated the same way and proved equal to the model's process on the pinned tree (GenMid.v, Properties_Mid_Cxx.v: a second tie; when a change to the sources defeats it the check records that and doubles its search for a failing input) + model/implementation correspondence on generated scripts + extracted observers evaluated on implementation traces",
+            "technique": "machine-checked proof in Coq over a Gallina model of the API (every boolean observer the check evaluates is itself a theorem of the model for every script); tie = tables regenerated from the compiled library (Gen.v) + 30 leaf functions translated from clang's typed AST on every run and proved equal to the model's (GenLeaf.v) + 33 middle-layer functions up to rdsparser_parser_process translated the same way and proved equal to the model's process on the pinned tree (GenMid.v, Properties_Mid_Cxx.v: a second tie; when a change to the sources defeats it the check records that and doubles its search for a failing input) + model/implementation correspondence on generated scripts + extracted observers evaluated on implementation traces",
         })
     man = {
         "version": 1,
